@@ -148,24 +148,30 @@ def headerSize (p : Proto) (b0 : Nat) : Nat :=
   | .ws => 2
   | .tcp => if b0 / 16 < 13 then 2 else if b0 / 16 = 13 then 3 else if b0 / 16 = 14 then 4 else 6
 
+/-- Len nibble + extended length of `coap_pdu_parse_size`: (`size`, index of `token_start`). -/
+def tcpLenField (bs : Bytes) (len : Nat) : R (Nat × Nat) :=
+  if len < 13 then R.ok (len, 2)
+  else if len = 13 then do let b1 ← rd bs 1; R.ok (b1 + 13, 3)
+  else if len = 14 then do let b1 ← rd bs 1; let b2 ← rd bs 2; R.ok (b1 * 256 + b2 + 269, 4)
+  else do
+    let b1 ← rd bs 1; let b2 ← rd bs 2; let b3 ← rd bs 3; let b4 ← rd bs 4
+    R.ok (b1 * 16777216 + b2 * 65536 + b3 * 256 + b4 + 65805, 6)
+
+/-- "account for the token length" part of `coap_pdu_parse_size`: what is added to `size`. -/
+def tcpTokField (bs : Bytes) (tkl tokStart : Nat) : R Nat :=
+  if tkl < 13 then R.ok tkl
+  else if tkl = 13 then do let t0 ← rd bs tokStart; R.ok (t0 + 13 + 1)
+  else if tkl = 14 then do
+    let t0 ← rd bs tokStart; let t1 ← rd bs (tokStart + 1)
+    R.ok ((t0 * 256) % 65536 + t1 + 269 + 2)
+  else R.ok 0
+
 /-- `coap_pdu_parse_size` for TCP, given at least `hdr_size + tok_ext_bytes` bytes. -/
 def parseSizeTcp (bs : Bytes) : R Nat := do
   let b0 ← rd bs 0
-  let len := b0 / 16
-  let tkl := b0 % 16
-  let (size, tokStart) ←
-    if len < 13 then R.ok (len, 2)
-    else if len = 13 then do let b1 ← rd bs 1; R.ok (b1 + 13, 3)
-    else if len = 14 then do let b1 ← rd bs 1; let b2 ← rd bs 2; R.ok (b1 * 256 + b2 + 269, 4)
-    else do
-      let b1 ← rd bs 1; let b2 ← rd bs 2; let b3 ← rd bs 3; let b4 ← rd bs 4
-      R.ok (b1 * 16777216 + b2 * 65536 + b3 * 256 + b4 + 65805, 6)
-  if tkl < 13 then R.ok (size + tkl)
-  else if tkl = 13 then do let t0 ← rd bs tokStart; R.ok (size + t0 + 13 + 1)
-  else if tkl = 14 then do
-    let t0 ← rd bs tokStart; let t1 ← rd bs (tokStart + 1)
-    R.ok (size + (t0 * 256) % 65536 + t1 + 269 + 2)
-  else R.ok size
+  let (size, tokStart) ← tcpLenField bs (b0 / 16)
+  let t ← tcpTokField bs (b0 % 16) tokStart
+  R.ok (size + t)
 
 /-- What reaches the protocol layer for one received unit:
  * UDP / WS: `coap_pdu_parse(proto, data, length, pdu)`;
